@@ -7,7 +7,7 @@ use crate::types::{attr_split, extract_urlref, strp, AttrMap, ClassList, ElRef};
 use crate::TransformConfig;
 
 use std::cell::RefCell;
-use std::collections::HashMap;
+use std::collections::{HashMap, HashSet};
 use std::time::{SystemTime, UNIX_EPOCH};
 
 use rand::prelude::*;
@@ -112,6 +112,9 @@ pub struct TransformerContext {
     elem_map: HashMap<String, SvgElement>,
     /// Original state of given element; used for `reuse` elements
     original_map: HashMap<String, SvgElement>,
+    /// Ids of elements which are registered (so `reuse` can find them) but have not
+    /// been evaluated yet; references to them must wait.
+    pending: HashSet<String>,
     /// Stack of elements which have been started but not yet ended
     ///
     /// Note empty elements are normally not pushed onto the stack,
@@ -147,6 +150,7 @@ impl Default for TransformerContext {
         Self {
             elem_map: HashMap::new(),
             original_map: HashMap::new(),
+            pending: HashSet::new(),
             element_stack: Vec::new(),
             prev_element: None,
             scope_stack: Vec::new(),
@@ -178,6 +182,9 @@ pub trait ContextView: ElementMap + VariableMap {}
 impl ElementMap for TransformerContext {
     fn get_element(&self, elref: &ElRef) -> Option<&SvgElement> {
         match elref {
+            // an element which is only registered, not evaluated, is not there yet as far
+            // as references are concerned: the referrer is retried once it is
+            ElRef::Id(id) if self.pending.contains(id) => None,
             ElRef::Id(id) => self.elem_map.get(id),
             ElRef::Prev => self.prev_element.as_ref(),
         }
@@ -516,6 +523,10 @@ impl TransformerContext {
             let id = self.eval_id(id);
             if !self.elem_map.contains_key(&id) {
                 self.update_element(el);
+                // (content of <specs> may never evaluate fully; it stays referencable)
+                if !self.in_specs {
+                    self.pending.insert(id);
+                }
             }
         }
     }
@@ -523,6 +534,7 @@ impl TransformerContext {
     pub fn update_element(&mut self, el: &SvgElement) {
         if let Some(id) = el.get_attr("id") {
             let id = self.eval_id(id);
+            self.pending.remove(&id);
             let old = self.elem_map.insert(id.clone(), el.clone());
             if old.as_ref() != Some(el) {
                 self.change_count += 1;
